@@ -193,6 +193,12 @@ def run_workers(prop, tier, obs, procs, info, verbose, root):
             give(w)
         now = time.time()
         for w in list(workers.values()):
+            # a worker whose process is gone and whose pipe delivered nothing for two sweeps is dead (robustness: never wait on it)
+            if w["p"].poll() is not None:
+                w["gone"] = w.get("gone", 0) + 1
+                if w["gone"] >= 3:
+                    fail(w, "worker process died")
+                    continue
             limit = (w["ob"].get("budget_s", default_budget) * 2 + 120) if w["ob"] is not None else 300
             if now - w["t0"] > limit and (w["ob"] is not None or not w["ready"]):
                 fail(w, f"worker exceeded {limit:.0f} s wall (killed)")
